@@ -589,6 +589,9 @@ func runProvFS(c map[string]any, live bool) (any, error) {
 // ---------------------------------------------------------------------------------------------------------------
 // http_endpoint
 
+// Configured endpoints: case["endpoints"] = [{"host": i, "path": "/rules", "query": "tenant=a"}, ...] (default: n
+// endpoints /e0../e<n-1> on one host). Two hosts are two servers on different loopback ports; endpoints may share the
+// path and differ in the host or in the query only.
 func runProvHTTP(c map[string]any) (any, error) {
 	var (
 		mu   sync.Mutex
@@ -600,54 +603,83 @@ func runProvHTTP(c map[string]any) (any, error) {
 		return nil, err
 	}
 
-	srv := httptest.NewServer(http.HandlerFunc(func(w http.ResponseWriter, r *http.Request) {
-		mu.Lock()
-		spec := resp[r.URL.Path]
-		mu.Unlock()
+	handler := func(host int) http.Handler {
+		return http.HandlerFunc(func(w http.ResponseWriter, r *http.Request) {
+			mu.Lock()
+			spec := resp[fmt.Sprintf("%d|%s?%s", host, r.URL.Path, r.URL.RawQuery)]
+			mu.Unlock()
 
-		switch getStr(spec, "st") {
-		case "status":
-			w.WriteHeader(getInt(spec, "code"))
-			_, _ = w.Write([]byte("no rule set for you"))
-		case "netfail":
-			if hj, ok := w.(http.Hijacker); ok {
-				if conn, _, err2 := hj.Hijack(); err2 == nil {
-					_ = conn.Close()
+			switch getStr(spec, "st") {
+			case "status":
+				w.WriteHeader(getInt(spec, "code"))
+				_, _ = w.Write([]byte("no rule set for you"))
+			case "netfail":
+				if hj, ok := w.(http.Hijacker); ok {
+					if conn, _, err2 := hj.Hijack(); err2 == nil {
+						_ = conn.Close()
+					}
 				}
+			case "badct":
+				data, _ := env.bytesOf(map[string]any{"st": "valid", "v": spec["v"]})
+
+				w.Header().Set("Content-Type", "text/plain")
+				_, _ = w.Write(data)
+			case "emptyct":
+				// empty body without a known content type
+				w.Header().Set("Content-Type", "text/plain")
+				w.WriteHeader(http.StatusOK)
+			case "":
+				// an endpoint nobody has put anything behind yet
+				w.WriteHeader(http.StatusNotFound)
+			default:
+				data, _ := env.bytesOf(spec)
+
+				if getStr(spec, "st") == "valid" && getInt(spec, "v")%5 == 0 {
+					w.Header().Set("Content-Type", "application/json")
+				} else {
+					w.Header().Set("Content-Type", "application/yaml")
+				}
+
+				_, _ = w.Write(data)
 			}
-		case "badct":
-			data, _ := env.bytesOf(map[string]any{"st": "valid", "v": spec["v"]})
-
-			w.Header().Set("Content-Type", "text/plain")
-			_, _ = w.Write(data)
-		case "emptyct":
-			// empty body without a known content type
-			w.Header().Set("Content-Type", "text/plain")
-			w.WriteHeader(http.StatusOK)
-		default:
-			data, _ := env.bytesOf(spec)
-
-			if getStr(spec, "st") == "valid" && getInt(spec, "v")%5 == 0 {
-				w.Header().Set("Content-Type", "application/json")
-			} else {
-				w.Header().Set("Content-Type", "application/yaml")
-			}
-
-			_, _ = w.Write(data)
-		}
-	}))
-
-	defer srv.Close()
-
-	env.proc.canon = func(src string) string {
-		return "s" + strings.TrimPrefix(strings.TrimPrefix(src, "http_endpoint:"), srv.URL+"/e")
+		})
 	}
 
-	n := getInt(c, "n")
-	eps := []any{}
+	layout := getArr(c, "endpoints")
+	if len(layout) == 0 {
+		for k := 0; k < getInt(c, "n"); k++ {
+			layout = append(layout, map[string]any{"host": 0, "path": fmt.Sprintf("/e%d", k)})
+		}
+	}
 
-	for k := 0; k < n; k++ {
-		eps = append(eps, map[string]any{"url": fmt.Sprintf("%s/e%d", srv.URL, k)})
+	srvs := map[int]*httptest.Server{}
+
+	defer func() {
+		for _, srv := range srvs {
+			srv.Close()
+		}
+	}()
+
+	eps := []any{}
+	urls := []string{}
+	keys := []string{}
+
+	for _, l := range layout {
+		lm := obj(l)
+		host := getInt(lm, "host")
+
+		if srvs[host] == nil {
+			srvs[host] = httptest.NewServer(handler(host))
+		}
+
+		url := srvs[host].URL + getStr(lm, "path")
+		if q := getStr(lm, "query"); q != "" {
+			url += "?" + q
+		}
+
+		urls = append(urls, url)
+		keys = append(keys, fmt.Sprintf("%d|%s?%s", host, getStr(lm, "path"), getStr(lm, "query")))
+		eps = append(eps, map[string]any{"url": url})
 	}
 
 	conf := &config.Configuration{Providers: config.RuleProviders{HTTPEndpoint: map[string]any{"endpoints": eps}}}
@@ -659,6 +691,25 @@ func runProvHTTP(c map[string]any) (any, error) {
 
 	defer prov.Close()
 
+	// the source / state key of an endpoint is its id; an id no configured endpoint has stays as it is, one that
+	// several configured endpoints share names them all
+	env.proc.canon = func(src string) string {
+		id := strings.TrimPrefix(src, "http_endpoint:")
+		names := []string{}
+
+		for k := range urls {
+			if id == prov.EndpointID(k) {
+				names = append(names, fmt.Sprintf("s%d", k))
+			}
+		}
+
+		if len(names) == 0 {
+			return src
+		}
+
+		return strings.Join(names, "|")
+	}
+
 	steps := []any{}
 
 	for _, s := range getArr(c, "steps") {
@@ -666,10 +717,14 @@ func runProvHTTP(c map[string]any) (any, error) {
 		env.proc.setRej(step)
 
 		k := getInt(step, "k")
+		if k >= len(urls) {
+			return nil, errors.New("poll of an endpoint that is not configured")
+		}
+
 		spec := obj(step["resp"])
 
 		mu.Lock()
-		resp[fmt.Sprintf("/e%d", k)] = spec
+		resp[keys[k]] = spec
 		mu.Unlock()
 
 		ctx, cancel := context.WithCancel(context.Background())
@@ -677,7 +732,7 @@ func runProvHTTP(c map[string]any) (any, error) {
 			cancel()
 		}
 
-		pollErr := prov.Poll(ctx, fmt.Sprintf("%s/e%d", srv.URL, k))
+		pollErr := prov.PollIdx(ctx, k)
 
 		cancel()
 
@@ -692,22 +747,32 @@ func runProvHTTP(c map[string]any) (any, error) {
 // ---------------------------------------------------------------------------------------------------------------
 // cloud_blob against an S3 fake
 
+// S3 fakes: separate stores on separate loopback ports. The same bucket name on two of them is two different buckets,
+// whose configured urls differ in the query (endpoint=...) only.
+type c18Store struct {
+	backend *s3mem.Backend
+	srv     *httptest.Server
+}
+
 var (
-	c18S3Once    sync.Once
-	c18S3Backend *s3mem.Backend
-	c18S3Srv     *httptest.Server
-	c18S3Fail    sync.Map // bucket name -> failure kind
-	c18S3Seq     int
+	c18S3Mu     sync.Mutex
+	c18S3Stores []*c18Store
+	c18S3Fail   sync.Map // "<store>/<bucket name>" -> failure kind
+	c18S3Seq    int
 )
 
-func c18S3() {
-	c18S3Once.Do(func() {
-		c18S3Backend = s3mem.New()
-		inner := gofakes3.New(c18S3Backend).Server()
+func c18S3(idx int) *c18Store {
+	c18S3Mu.Lock()
+	defer c18S3Mu.Unlock()
 
-		c18S3Srv = httptest.NewServer(http.HandlerFunc(func(w http.ResponseWriter, r *http.Request) {
+	for len(c18S3Stores) <= idx {
+		n := len(c18S3Stores)
+		backend := s3mem.New()
+		inner := gofakes3.New(backend).Server()
+
+		srv := httptest.NewServer(http.HandlerFunc(func(w http.ResponseWriter, r *http.Request) {
 			parts := strings.SplitN(strings.TrimPrefix(r.URL.Path, "/"), "/", 2)
-			if kind, ok := c18S3Fail.Load(parts[0]); ok {
+			if kind, ok := c18S3Fail.Load(fmt.Sprintf("%d/%s", n, parts[0])); ok {
 				switch kind {
 				case "comm":
 					// an answer the S3 client can classify neither as "not found" nor as anything else it knows
@@ -730,45 +795,84 @@ func c18S3() {
 
 			inner.ServeHTTP(w, r)
 		}))
-	})
+
+		c18S3Stores = append(c18S3Stores, &c18Store{backend: backend, srv: srv})
+	}
+
+	return c18S3Stores[idx]
 }
 
+type c18Bucket struct {
+	store  *c18Store
+	sidx   int
+	name   string
+	prefix string
+}
+
+func (b *c18Bucket) failKey() string { return fmt.Sprintf("%d/%s", b.sidx, b.name) }
+
+// Configured buckets: case["buckets"] = [{"store": i, "name": n, "prefix": p}, ...] (default: one bucket). Bucket j owns
+// the sources 4j..4j+3, stored under the keys <prefix>s0..<prefix>s3.
 func runProvBlob(c map[string]any) (any, error) {
-	c18S3()
-
+	c18S3Mu.Lock()
 	c18S3Seq++
-	bucket := fmt.Sprintf("verif_%d", c18S3Seq)
+	seq := c18S3Seq
+	c18S3Mu.Unlock()
 
-	if err := c18S3Backend.CreateBucket(bucket); err != nil {
-		return nil, err
+	specs := getArr(c, "buckets")
+	if len(specs) == 0 {
+		specs = []any{map[string]any{}}
+	}
+
+	single := getBool(c, "single") && len(specs) == 1
+	buckets := []*c18Bucket{}
+	created := map[string]bool{}
+	confs := []any{}
+
+	for _, bs := range specs {
+		bm := obj(bs)
+		b := &c18Bucket{
+			sidx: getInt(bm, "store"), name: fmt.Sprintf("verif_%d_%d", seq, getInt(bm, "name")),
+			prefix: getStr(bm, "prefix"),
+		}
+		b.store = c18S3(b.sidx)
+
+		if !created[b.failKey()] {
+			if err := b.store.backend.CreateBucket(b.name); err != nil {
+				return nil, err
+			}
+
+			created[b.failKey()] = true
+		}
+
+		url := fmt.Sprintf("s3://%s?endpoint=%s&region=eu-central-1", b.name, b.store.srv.URL)
+		if single {
+			url = fmt.Sprintf("s3://%s/s0?endpoint=%s&region=eu-central-1", b.name, b.store.srv.URL)
+		}
+
+		buckets = append(buckets, b)
+		confs = append(confs, map[string]any{"url": url, "prefix": b.prefix})
 	}
 
 	defer func() {
-		if lst, err := c18S3Backend.ListBucket(bucket, nil, gofakes3.ListBucketPage{}); err == nil {
-			for _, o := range lst.Contents {
-				_, _ = c18S3Backend.DeleteObject(bucket, o.Key)
+		for _, b := range buckets {
+			if lst, err := b.store.backend.ListBucket(b.name, nil, gofakes3.ListBucketPage{}); err == nil {
+				for _, o := range lst.Contents {
+					_, _ = b.store.backend.DeleteObject(b.name, o.Key)
+				}
 			}
-		}
 
-		_ = c18S3Backend.DeleteBucket(bucket)
-		c18S3Fail.Delete(bucket)
+			_ = b.store.backend.DeleteBucket(b.name)
+			c18S3Fail.Delete(b.failKey())
+		}
 	}()
 
-	single := getBool(c, "single")
-	url := fmt.Sprintf("s3://%s?endpoint=%s&region=eu-central-1", bucket, c18S3Srv.URL)
-
-	if single {
-		url = fmt.Sprintf("s3://%s/s0?endpoint=%s&region=eu-central-1", bucket, c18S3Srv.URL)
-	}
-
-	env, err := newC18Env(func(src string) string { return strings.TrimPrefix(strings.SplitN(src, "@", 2)[0], "/") })
+	env, err := newC18Env(nil)
 	if err != nil {
 		return nil, err
 	}
 
-	conf := &config.Configuration{Providers: config.RuleProviders{
-		CloudBlob: map[string]any{"buckets": []any{map[string]any{"url": url, "prefix": getStr(c, "prefix")}}},
-	}}
+	conf := &config.Configuration{Providers: config.RuleProviders{CloudBlob: map[string]any{"buckets": confs}}}
 
 	prov, err := cloudblob.VerifC18New(conf, env.proc, c18Logger())
 	if err != nil {
@@ -776,6 +880,36 @@ func runProvBlob(c map[string]any) (any, error) {
 	}
 
 	defer prov.Close()
+
+	// "<key>@<bucket id>" -> s<4j+i>; a source that belongs to no configured bucket stays as it is, and one that
+	// fits several configured buckets (which must not happen: the id has to tell the buckets apart) names them all
+	env.proc.canon = func(src string) string {
+		parts := strings.SplitN(src, "@", 2)
+		if len(parts) != 2 {
+			return src
+		}
+
+		names := []string{}
+
+		for j, b := range buckets {
+			if parts[1] != prov.BucketID(j) {
+				continue
+			}
+
+			key := strings.TrimPrefix(strings.TrimPrefix(parts[0], "/"), b.prefix)
+
+			var i int
+			if n, err2 := fmt.Sscanf(key, "s%d", &i); n == 1 && err2 == nil && fmt.Sprintf("s%d", i) == key {
+				names = append(names, fmt.Sprintf("s%d", 4*j+i))
+			}
+		}
+
+		if len(names) == 0 {
+			return src
+		}
+
+		return strings.Join(names, "|")
+	}
 
 	steps := []any{}
 
@@ -785,16 +919,24 @@ func runProvBlob(c map[string]any) (any, error) {
 
 		for _, m := range getArr(step, "set") {
 			mm := obj(m)
-			key := fmt.Sprintf("s%d", getInt(mm, "k"))
+			k := getInt(mm, "k")
+			if k/4 >= len(buckets) {
+				return nil, errors.New("blob of a bucket that is not configured")
+			}
+
+			b := buckets[k/4]
+			key := fmt.Sprintf("%ss%d", b.prefix, k%4)
+
 			if single {
 				// the provider takes the path of the configured url, leading slash included, for the key
 				key = "/" + key
 			}
+
 			spec := obj(mm["blob"])
 
 			data, exists := env.bytesOf(spec)
 			if !exists {
-				if _, err = c18S3Backend.DeleteObject(bucket, key); err != nil {
+				if _, err = b.store.backend.DeleteObject(b.name, key); err != nil {
 					return nil, err
 				}
 
@@ -810,16 +952,19 @@ func runProvBlob(c map[string]any) (any, error) {
 				ct = "application/json"
 			}
 
-			if _, err = c18S3Backend.PutObject(bucket, key, map[string]string{"Content-Type": ct},
+			if _, err = b.store.backend.PutObject(b.name, key, map[string]string{"Content-Type": ct},
 				bytes.NewReader(data), int64(len(data))); err != nil {
 				return nil, err
 			}
 		}
 
+		polled := getInt(step, "b")
+		if polled >= len(buckets) {
+			return nil, errors.New("poll of a bucket that is not configured")
+		}
+
 		if f := getStr(step, "fail"); f != "" && f != "cancel" {
-			c18S3Fail.Store(bucket, f)
-		} else {
-			c18S3Fail.Delete(bucket)
+			c18S3Fail.Store(buckets[polled].failKey(), f)
 		}
 
 		ctx, cancel := context.WithCancel(context.Background())
@@ -827,9 +972,10 @@ func runProvBlob(c map[string]any) (any, error) {
 			cancel()
 		}
 
-		pollErr := prov.Poll(ctx, 0)
+		pollErr := prov.Poll(ctx, polled)
 
 		cancel()
+		c18S3Fail.Delete(buckets[polled].failKey())
 
 		states := map[string][]byte{}
 		for _, m := range prov.States() {
